@@ -1,10 +1,11 @@
 import WtVerif.Driver.Ops
+import WtVerif.Driver.Ops2
 
 namespace Ops
 
 def handle (op : String) (a obs : List String) : Option Verdict :=
   match handleCore op a obs with
   | some v => some v
-  | none => none
+  | none => handle2 op a obs
 
 end Ops
